@@ -28,10 +28,10 @@ def run_all(validate=None):
     its whitelist (or whose output does not compile, `validate(module) -> (rc, log)`) leaves its
     file(s) as they were and reports `error`; only the properties whose theorems import that file
     lose their tie.  Constants.lean isolates per fact (see constants.py)."""
-    from . import constants, lifecycle, checkgen, kernels, bakekernels, patches, legkernels, gluekernels, exchangeglue, sourceglue, monoglue, bakeglue, setterglue, metrics, brdfglue, smallfn, visfn, stokesfn, kangfn, polyfn, universalfn, kangff
+    from . import constants, lifecycle, checkgen, kernels, bakekernels, patches, legkernels, gluekernels, exchangeglue, sourceglue, monoglue, bakeglue, setterglue, metrics, brdfglue, smallfn, visfn, stokesfn, kangfn, polyfn, universalfn, kangff, attrfn
     out = {}
     gen = os.path.join(common.LEAN_DIR, 'Sparrow', 'Generated')
-    for name, mod in (('Constants', constants), ('Lifecycle', lifecycle), ('Check', checkgen), ('Kernels', kernels), ('BakeKernels', bakekernels), ('Patches', patches), ('LegKernels', legkernels), ('Glue', gluekernels), ('ExchangeGlue', exchangeglue), ('SourceGlue', sourceglue), ('MonoGlue', monoglue), ('BakeGlue', bakeglue), ('SetterGlue', setterglue), ('Metrics', metrics), ('BrdfGlue', brdfglue), ('PointFactor', smallfn), ('VisibilityFn', visfn), ('StokesFn', stokesfn), ('KangFn', kangfn), ('PolygonFn', polyfn), ('UniversalFn', universalfn), ('KangFF', kangff)):
+    for name, mod in (('Constants', constants), ('Lifecycle', lifecycle), ('Check', checkgen), ('Kernels', kernels), ('BakeKernels', bakekernels), ('Patches', patches), ('LegKernels', legkernels), ('Glue', gluekernels), ('ExchangeGlue', exchangeglue), ('SourceGlue', sourceglue), ('MonoGlue', monoglue), ('BakeGlue', bakeglue), ('SetterGlue', setterglue), ('Metrics', metrics), ('BrdfGlue', brdfglue), ('PointFactor', smallfn), ('VisibilityFn', visfn), ('StokesFn', stokesfn), ('KangFn', kangfn), ('PolygonFn', polyfn), ('UniversalFn', universalfn), ('KangFF', kangff), ('PatchAttrs', attrfn)):
         try:
             text, facts = mod.generate()
         except Exception as e:
